@@ -8,6 +8,7 @@
 //! case line: `txn-l | act ; act ; ...`
 //!   `ctl`                    attach the control link (target = coordinator), handle 0
 //!   `dctl` / `dctl0`         detach the control link (closing / not closing)
+//!   `ctl2` `dctl2` `decl2` `commit2 <tx>` `rollback2 <tx>`   the same on a second, independent control link (handle 30)
 //!   `lnk <i>`                attach sender link i (1..3), handle i
 //!   `decl`                   Declare on the control link; the k-th `decl` action yields id `t<k>`
 //!   `post <i> <tx> <m> [s]`  transfer message m on link i; tx = `-` (plain), `t<k>`, `bogus`; `s` = pre-settled
@@ -115,6 +116,8 @@ const TXN_CONDS: [&str; 3] = ["UnknownId", "Rollback", "Timeout"];
 // ==========================================================================================
 
 const BOGUS: [u8; 16] = [0xbb; 16];
+/// handle of the second control link
+const CTL2: u32 = 30;
 
 fn never_id(k: usize) -> Vec<u8> {
     let mut v = vec![0xee; 15];
@@ -127,6 +130,8 @@ struct LPeer {
     next_did: u32,
     ctl_n: u32,
     ctl_on: bool,
+    /// the second control link (handle CTL2)
+    ctl2_on: bool,
     /// handle of the current control link incarnation (0; a fresh one after a non-closing detach)
     ctl_handle: u32,
     /// handle of each control link incarnation, by number (1-based)
@@ -288,10 +293,12 @@ impl LPeer {
                             let ours = self.handle_map.remove(&h);
                             if let Some(o) = ours {
                                 let is_ctl = o == 0 || o >= 5;
-                                let still = if is_ctl { (self.ctl_on && self.ctl_handle as usize == o) || self.ctl_reattached.contains(&(o as u32)) } else { self.links[o] };
+                                let still = if is_ctl { (self.ctl_on && self.ctl_handle as usize == o) || (self.ctl2_on && o as u32 == CTL2) || self.ctl_reattached.contains(&(o as u32)) } else { self.links[o] };
                                 if still && self.sess_alive {
                                     if is_ctl {
-                                        if self.ctl_handle as usize == o {
+                                        if o as u32 == CTL2 {
+                                            self.ctl2_on = false;
+                                        } else if self.ctl_handle as usize == o {
                                             self.ctl_on = false;
                                         }
                                         self.ctl_reattached.retain(|x| *x as usize != o);
@@ -333,7 +340,9 @@ impl LPeer {
     }
     /// control link handles are all shown as 0
     fn show(&self, ours: usize) -> String {
-        if ours >= 5 {
+        if ours as u32 == CTL2 {
+            "30".into()
+        } else if ours >= 5 {
             "0".into()
         } else {
             ours.to_string()
@@ -345,6 +354,7 @@ impl LPeer {
             next_did: 0,
             ctl_n: 0,
             ctl_on: false,
+            ctl2_on: false,
             ctl_handle: 0,
             ctl_handles: vec![0],
             ctl_detached: Vec::new(),
@@ -493,7 +503,7 @@ pub fn run_case_l(line: &str) -> String {
             let mut skipped = false;
             let mut nocredit = false;
             let mut burst_sent: Option<u32> = None;
-            if w[0] == "decl" {
+            if w[0] == "decl" || w[0] == "decl2" {
                 // every decl action owns one slot, even when it cannot be sent
                 lp.declared.push(None);
             }
@@ -539,6 +549,40 @@ pub fn run_case_l(line: &str) -> String {
                                 lp.ctl_detached.push(h);
                                 lp.ctl_handle = 4 + lp.ctl_n;
                             }
+                        }
+                    }
+                    "ctl2" => {
+                        if lp.ctl2_on {
+                            skipped = true;
+                        } else {
+                            lp.ctl_n += 1;
+                            lp.ctl2_on = true;
+                            lp.ctl_handles.push(CTL2);
+                            let at = Attach {
+                                name: format!("ctl{}", lp.ctl_n),
+                                handle: CTL2.into(),
+                                role: Role::Sender,
+                                snd_settle_mode: SenderSettleMode::Unsettled,
+                                rcv_settle_mode: ReceiverSettleMode::First,
+                                source: Some(Box::new(Source::default())),
+                                target: Some(Box::new(TargetArchetype::Coordinator(Coordinator { capabilities: None }))),
+                                unsettled: None,
+                                incomplete_unsettled: false,
+                                initial_delivery_count: Some(0),
+                                max_message_size: None,
+                                offered_capabilities: None,
+                                desired_capabilities: None,
+                                properties: None,
+                            };
+                            lp.send(Performative::Attach(at), &[]).await;
+                        }
+                    }
+                    "dctl2" => {
+                        if !lp.ctl2_on {
+                            skipped = true;
+                        } else {
+                            lp.ctl2_on = false;
+                            lp.send(Performative::Detach(Detach { handle: CTL2.into(), closed: true, error: None }), &[]).await;
                         }
                     }
                     "lnk" => {
@@ -620,8 +664,9 @@ pub fn run_case_l(line: &str) -> String {
                         }
                         _ => skipped = true,
                     },
-                    "decl" => {
-                        if !lp.ctl_on {
+                    "decl" | "decl2" => {
+                        let (on, handle) = if w[0] == "decl2" { (lp.ctl2_on, CTL2) } else { (lp.ctl_on, lp.ctl_handle) };
+                        if !on {
                             skipped = true;
                         } else {
                             let did = lp.next_did;
@@ -630,25 +675,26 @@ pub fn run_case_l(line: &str) -> String {
                             new_decl = Some(lp.declared.len() - 1);
                             let m = Message::builder().value(Declare { global_id: None }).build();
                             let pay = serde_amqp::to_vec(&Serializable(&m)).unwrap();
-                            let t = lp.transfer(lp.ctl_handle, None, false, false, did);
+                            let t = lp.transfer(handle, None, false, false, did);
                             lp.send(t, &pay).await;
                         }
                     }
-                    "commit" | "rollback" | "commitn" => {
-                        if !lp.ctl_on {
+                    "commit" | "rollback" | "commitn" | "commit2" | "rollback2" => {
+                        let (on, handle) = if w[0].ends_with('2') { (lp.ctl2_on, CTL2) } else { (lp.ctl_on, lp.ctl_handle) };
+                        if !on {
                             skipped = true;
                         } else {
                             let did = lp.next_did;
                             lp.next_did += 1;
                             star = Some(did);
                             let fail = match w[0] {
-                                "commit" => Some(false),
-                                "rollback" => Some(true),
+                                "commit" | "commit2" => Some(false),
+                                "rollback" | "rollback2" => Some(true),
                                 _ => None,
                             };
                             let m = Message::builder().value(Discharge { txn_id: Binary::from(lp.resolve(w[1])), fail }).build();
                             let pay = serde_amqp::to_vec(&Serializable(&m)).unwrap();
-                            let t = lp.transfer(lp.ctl_handle, None, false, false, did);
+                            let t = lp.transfer(handle, None, false, false, did);
                             lp.send(t, &pay).await;
                         }
                     }
@@ -2234,6 +2280,441 @@ pub fn run(seed: u64, n: u64, thorough: bool, corpus: &[String], dir: &str) {
             out.violation("c18-panic", &format!("c18-panic: the case panicked: {}", line), &line);
         }
         out.case(&line, &t);
+    }
+    out.finish(dir);
+}
+
+// ==========================================================================================
+// Part 3: correspondence with the Coq model Txn/Manager.v (`txnm`)
+// ==========================================================================================
+//
+// case line: `txnm act ; act ; ...` - the `txn-l` grammar restricted to the model's alphabet:
+//   `ctl` `dctl` `ctl2` `dctl2` `lnk <i>` `decl` `decl2` `post <i> <tx> <m> [s]` `postm <i> <tx> <m> [s]`
+//   `commit|commitn|rollback <tx>` `commit2|rollback2 <tx>` `dropsess` `dropconn`
+// (`postm` only under a live id or plain.)  Left out: `dctl0`, `burst`, `rlnk`/`snd`/`ret`, `postm` under an
+// id that is not live - the triggers of known findings and what the model abstracts away.
+//
+// abstract trace: one token group per action, ` ; ` separated, then ` # ` and what happened in the
+// virtual minute after the last action.  A group is `skip`, or the listener's answers in wire order
+// (`att` `detached` `declared(t<k>)` `accepted` `rejected(<cond>)` `prov(t<k>)` `end` `end(<cond>)`; `-` if
+// none) followed by the deliveries to the application per link in link order (` l<i>:m<a>,m<b>`).
+// Not part of the abstraction: flows, the application's own dispositions for what it received, the
+// errors the application's calls return when the session ends, what the listener writes when the
+// transport is gone.
+
+fn abs_step(act: &[&str], wire: &str, app: &str) -> String {
+    let wire = wire.trim();
+    if wire.starts_with("skip") {
+        return "skip".into();
+    }
+    if wire.starts_with("nocredit") {
+        return "nocredit".into();
+    }
+    let verb = act.first().cloned().unwrap_or("");
+    let is_post = verb == "post" || verb == "postm";
+    let plain = is_post && act.get(2) == Some(&"-");
+    let dropconn = verb == "dropconn";
+    let mut ans: Vec<String> = Vec::new();
+    for t in wire.split(',').map(|x| x.trim()).filter(|x| !x.is_empty()) {
+        let tok: Option<String> = if t == "EOF" {
+            if dropconn {
+                None
+            } else {
+                Some("eof".into())
+            }
+        } else if t.starts_with('F') {
+            None
+        } else if t.starts_with('A') {
+            Some(if t.ends_with('!') { "att!".into() } else { "att".into() })
+        } else if let Some(body) = t.strip_prefix("P*=") {
+            if body.starts_with("decl(") {
+                let l = inner_cond(t, "decl(").unwrap_or_default();
+                Some(if l.ends_with("!dup") { "declared(dup)".into() } else { format!("declared({})", l) })
+            } else if body.starts_with("tx(") {
+                match inner_cond(t, "tx(").and_then(|x| x.split_once(':').map(|(a, b)| (a.to_string(), b.to_string()))) {
+                    Some((id, o)) if o == "acc" => Some(format!("prov({})", id)),
+                    _ => Some(t.to_string()),
+                }
+            } else if body.starts_with("acc") {
+                if plain {
+                    None
+                } else if is_post {
+                    Some("accepted!".into())
+                } else {
+                    Some("accepted".into())
+                }
+            } else if body.starts_with("rej(") {
+                Some(format!("rejected({})", inner_cond(t, "rej(").unwrap_or_default()))
+            } else {
+                Some(t.to_string())
+            }
+        } else if t.starts_with('P') {
+            None
+        } else if t.starts_with('D') {
+            let rest = &t[1..];
+            let h: String = rest.chars().take_while(|c| c.is_ascii_digit()).collect();
+            let tail = &rest[h.len()..];
+            let closed = tail.starts_with('c');
+            let err = inner_cond(t, "e(").map(|c| format!("({})", c)).unwrap_or_default();
+            let name = if h == "0" || h == "30" { "detached" } else { "ldetached" };
+            Some(format!("{}{}{}", name, if closed { "" } else { "0" }, err))
+        } else if t.starts_with('E') {
+            Some(match inner_cond(t, "e(") {
+                Some(c) => format!("end({})", c),
+                None => "end".into(),
+            })
+        } else if t.starts_with('C') {
+            if dropconn {
+                None
+            } else {
+                Some(format!("close({})", inner_cond(t, "e(").unwrap_or_default()))
+            }
+        } else {
+            Some(t.to_string())
+        };
+        if let Some(x) = tok {
+            // a message cut into two frames is answered once per frame
+            if ans.last() != Some(&x) {
+                ans.push(x);
+            }
+        }
+    }
+    let mut per_link: std::collections::BTreeMap<u32, Vec<String>> = Default::default();
+    for ev in expand_app(app.trim()) {
+        if let Some((l, m)) = ev.split_once(':') {
+            if let (Some(li), Some(mi)) = (l.strip_prefix('l').and_then(|x| x.parse::<u32>().ok()), m.strip_prefix('m').and_then(|x| x.parse::<u32>().ok())) {
+                per_link.entry(li).or_default().push(format!("m{}", mi));
+            }
+        }
+    }
+    let mut s = if ans.is_empty() { "-".to_string() } else { ans.join(",") };
+    for (l, ms) in per_link {
+        s.push_str(&format!(" l{}:{}", l, ms.join(",")));
+    }
+    s
+}
+
+/// the abstraction of a `txn-l` trace to the observations of the model
+pub fn abstract_trace(script: &str, trace: &str) -> String {
+    if trace.starts_with("PRELUDE-FAILED") || trace == "HARNESS-PANIC" {
+        return trace.to_string();
+    }
+    let acts: Vec<Vec<&str>> = script.split(';').map(|s| s.split_whitespace().collect::<Vec<_>>()).filter(|x: &Vec<&str>| !x.is_empty()).collect();
+    let (body, fin) = match trace.split_once('#') {
+        Some((b, f)) => (b, f),
+        None => (trace, ""),
+    };
+    let steps: Vec<&str> = body.split(';').map(|x| x.trim()).collect();
+    let mut out: Vec<String> = Vec::new();
+    for (k, a) in acts.iter().enumerate() {
+        let st = steps.get(k + 1).cloned().unwrap_or("MISSING /");
+        let (w, ap) = st.split_once('/').unwrap_or((st, ""));
+        out.push(abs_step(a, w, ap));
+    }
+    let (w, ap) = fin.split_once('/').unwrap_or((fin, ""));
+    format!("{} # {}", out.join(" ; "), abs_step(&[], w, ap))
+}
+
+/// A static picture of the script so far, used only to shape the generated scripts (which ids are
+/// live, is the session there): the answers always come from the implementation and from the model.
+#[derive(Clone, Default)]
+struct Sim {
+    dead: bool,
+    ctl: [bool; 2],
+    links: [bool; 4],
+    ndecl: usize,
+    /// (decl index, control link)
+    live: Vec<(usize, usize)>,
+    done: Vec<usize>,
+}
+impl Sim {
+    fn is_live(&self, tx: &str) -> bool {
+        tx.strip_prefix('t').and_then(|x| x.parse::<usize>().ok()).map(|k| self.live.iter().any(|(j, _)| *j == k)).unwrap_or(false)
+    }
+    /// may the action be part of a `txnm` script here?
+    fn legal(&self, act: &str) -> bool {
+        let w: Vec<&str> = act.split_whitespace().collect();
+        match w[0] {
+            "postm" => w[2] == "-" || self.is_live(w[2]),
+            _ => true,
+        }
+    }
+    fn apply(&mut self, act: &str) {
+        let w: Vec<&str> = act.split_whitespace().collect();
+        let c = if w[0].ends_with('2') { 1 } else { 0 };
+        if w[0] == "decl" || w[0] == "decl2" {
+            if !self.dead && self.ctl[c] {
+                self.live.push((self.ndecl, c));
+            }
+            self.ndecl += 1;
+            return;
+        }
+        if self.dead {
+            return;
+        }
+        match w[0] {
+            "ctl" | "ctl2" => self.ctl[c] = true,
+            "dctl" | "dctl2" => {
+                if self.ctl[c] {
+                    self.ctl[c] = false;
+                    let (gone, keep): (Vec<_>, Vec<_>) = self.live.iter().cloned().partition(|(_, o)| *o == c);
+                    self.live = keep;
+                    self.done.extend(gone.into_iter().map(|(k, _)| k));
+                }
+            }
+            "lnk" => self.links[w[1].parse::<usize>().unwrap()] = true,
+            "post" | "postm" => {
+                if self.links[w[1].parse::<usize>().unwrap()] && w[2] != "-" && !self.is_live(w[2]) {
+                    self.kill();
+                }
+            }
+            "commit" | "commitn" | "rollback" | "commit2" | "rollback2" => {
+                if self.ctl[c] {
+                    if let Some(k) = w[1].strip_prefix('t').and_then(|x| x.parse::<usize>().ok()) {
+                        if let Some(p) = self.live.iter().position(|(j, o)| *j == k && *o == c) {
+                            self.live.remove(p);
+                            self.done.push(k);
+                        }
+                    }
+                }
+            }
+            "dropsess" | "dropconn" => self.kill(),
+            _ => {}
+        }
+    }
+    fn kill(&mut self) {
+        self.dead = true;
+        self.ctl = [false; 2];
+        let l = std::mem::take(&mut self.live);
+        self.done.extend(l.into_iter().map(|(k, _)| k));
+    }
+}
+
+const M_ALPHABET: [&str; 16] = [
+    "decl",
+    "post 1 t0 #",
+    "post 2 t0 # s",
+    "post 1 t1 #",
+    "post 1 - #",
+    "postm 2 t0 #",
+    "commit t0",
+    "rollback t0",
+    "commitn t1",
+    "rollback t1",
+    "commit bogus",
+    "dctl",
+    "ctl",
+    "dropsess",
+    "dropconn",
+    "post 2 bogus #",
+];
+const M_PREFIXES: [&str; 3] = ["ctl ; lnk 1 ; lnk 2", "ctl ; lnk 1 ; lnk 2 ; decl", "ctl ; lnk 1 ; lnk 2 ; decl ; decl"];
+/// two control links at once
+const M2_ALPHABET: [&str; 13] = [
+    "post 1 t0 #",
+    "post 1 t1 #",
+    "post 1 - #",
+    "commit t0",
+    "commit2 t0",
+    "commit t1",
+    "commit2 t1",
+    "rollback2 t0",
+    "rollback t1",
+    "dctl",
+    "dctl2",
+    "ctl2",
+    "decl2",
+];
+const M2_PREFIX: &str = "ctl ; ctl2 ; lnk 1 ; decl ; decl2";
+
+/// every script `prefix ; a1 ; .. ; ak` (k <= maxlen) over the alphabet; a script is not extended more than one
+/// action beyond the end of its session (everything is skipped from there on)
+fn enum_scripts_m(prefix: &str, alphabet: &[&str], maxlen: usize, out: &mut Vec<String>) {
+    let mut sim0 = Sim::default();
+    let pre: Vec<String> = prefix.split(';').map(|x| x.trim().to_string()).collect();
+    for a in &pre {
+        sim0.apply(a);
+    }
+    // (actions, sim, steps after the session's end)
+    let mut stack: Vec<(Vec<String>, Sim, usize)> = vec![(Vec::new(), sim0, 0)];
+    while let Some((acts, sim, after)) = stack.pop() {
+        if !acts.is_empty() {
+            out.push(format!("{} ; {}", prefix, acts.join(" ; ")));
+        }
+        if acts.len() >= maxlen || after >= 1 {
+            continue;
+        }
+        for a in alphabet.iter().rev() {
+            let act = a.replace('#', &acts.len().to_string());
+            if !sim.legal(&act) {
+                continue;
+            }
+            let mut s2 = sim.clone();
+            let was_dead = s2.dead;
+            s2.apply(&act);
+            let mut nx = acts.clone();
+            nx.push(act);
+            stack.push((nx, s2, if was_dead { after + 1 } else { 0 }));
+        }
+    }
+}
+
+/// a random longer script: 2-3 links, two control links, several transactions at once
+pub fn gen_case_m(r: &mut Rng, thorough: bool) -> String {
+    let mut sim = Sim::default();
+    let mut acts: Vec<String> = Vec::new();
+    let push = |acts: &mut Vec<String>, sim: &mut Sim, a: String| {
+        sim.apply(&a);
+        acts.push(a);
+    };
+    push(&mut acts, &mut sim, "ctl".into());
+    let two = r.below(3) != 0;
+    if two && r.below(2) == 0 {
+        push(&mut acts, &mut sim, "ctl2".into());
+    }
+    let nlinks = r.range(2, 3) as usize;
+    for i in 1..=nlinks {
+        if r.below(5) != 0 {
+            push(&mut acts, &mut sim, format!("lnk {}", i));
+        }
+    }
+    let n = r.range(8, if thorough { 60 } else { 30 });
+    let mut m = 0u32;
+    let mut after_death = 0;
+    let pick_tx = |r: &mut Rng, sim: &Sim| -> String {
+        match r.below(40) {
+            0 => "bogus".to_string(),
+            1 => format!("t{}", sim.ndecl + r.below(2) as usize),
+            2..=4 if !sim.done.is_empty() => format!("t{}", r.pick(&sim.done)),
+            _ if !sim.live.is_empty() => format!("t{}", r.pick(&sim.live).0),
+            _ => format!("t{}", r.below(3)),
+        }
+    };
+    for _ in 0..n {
+        if sim.dead {
+            after_death += 1;
+            if after_death > 2 {
+                break;
+            }
+        }
+        let want_decl = sim.live.len() < 3 && (sim.ctl[0] || sim.ctl[1]) && r.below(3) != 0;
+        let x = if want_decl { 0 } else { r.below(40) };
+        match x {
+            0..=5 => {
+                let c = if sim.ctl[1] && (!sim.ctl[0] || r.below(2) == 0) { "decl2" } else { "decl" };
+                push(&mut acts, &mut sim, c.to_string());
+            }
+            6..=22 => {
+                let i = r.range(1, nlinks as u64) as usize;
+                if !sim.links[i] && r.below(10) != 0 {
+                    push(&mut acts, &mut sim, format!("lnk {}", i));
+                }
+                let tx = if r.below(4) == 0 { "-".to_string() } else { pick_tx(r, &sim) };
+                let verb = if r.below(7) == 0 && (tx == "-" || sim.is_live(&tx)) { "postm" } else { "post" };
+                let s = if r.below(4) == 0 { " s" } else { "" };
+                push(&mut acts, &mut sim, format!("{} {} {} {}{}", verb, i, tx, m, s));
+                m += 1;
+            }
+            23..=31 => {
+                let tx = pick_tx(r, &sim);
+                let owner = tx.strip_prefix('t').and_then(|x| x.parse::<usize>().ok()).and_then(|k| sim.live.iter().find(|(j, _)| *j == k).map(|(_, o)| *o));
+                // mostly through the control link that declared it
+                let c = match owner {
+                    Some(o) if r.below(6) != 0 => o,
+                    _ => r.below(2) as usize,
+                };
+                let verb = match (c, r.below(5)) {
+                    (0, 0 | 1) => "commit",
+                    (0, 2 | 3) => "rollback",
+                    (0, _) => "commitn",
+                    (_, 0..=2) => "commit2",
+                    _ => "rollback2",
+                };
+                push(&mut acts, &mut sim, format!("{} {}", verb, tx));
+            }
+            32 | 33 => {
+                let a = if sim.ctl[0] { "dctl" } else { "ctl" };
+                push(&mut acts, &mut sim, a.to_string());
+            }
+            34 | 35 if two => {
+                let a = if sim.ctl[1] { "dctl2" } else { "ctl2" };
+                push(&mut acts, &mut sim, a.to_string());
+            }
+            36 => {
+                if r.below(4) == 0 {
+                    let a = if r.below(3) == 0 { "dropconn" } else { "dropsess" };
+                    push(&mut acts, &mut sim, a.to_string());
+                }
+            }
+            _ => {
+                let i = r.range(1, 3) as usize;
+                if !sim.links[i] && i <= nlinks {
+                    push(&mut acts, &mut sim, format!("lnk {}", i));
+                }
+            }
+        }
+    }
+    acts.join(" ; ")
+}
+
+pub fn run_model(seed: u64, n: u64, thorough: bool, corpus: &[String], dir: &str) {
+    crate::codec::quiet_panics();
+    let mut out = Outputs::new(dir);
+    let mut r = Rng::new(seed);
+    let mut scripts: Vec<String> = Vec::new();
+    for l in corpus {
+        if let Some(s) = l.strip_prefix("txnm ") {
+            out.count("corpus_cases");
+            scripts.push(s.to_string());
+        }
+    }
+    let depth = if thorough { 5 } else { 4 };
+    let before = scripts.len();
+    for (k, p) in M_PREFIXES.iter().enumerate() {
+        // the longest scripts only after two declares
+        enum_scripts_m(p, &M_ALPHABET, if k == 2 { depth } else { depth - 1 }, &mut scripts);
+    }
+    enum_scripts_m(M2_PREFIX, &M2_ALPHABET, depth - 1, &mut scripts);
+    out.add("enumerated_scripts", (scripts.len() - before) as u64);
+    for _ in 0..n {
+        scripts.push(gen_case_m(&mut r, thorough));
+    }
+    for s in scripts {
+        let line = format!("txnm {}", s);
+        let full = format!("txn-l | {}", s);
+        let f2 = full.clone();
+        let t = match std::panic::catch_unwind(move || run_case_l(&f2)) {
+            Ok(t) => t,
+            Err(_) => "HARNESS-PANIC".to_string(),
+        };
+        let a = abstract_trace(&s, &t);
+        for act in s.split(';') {
+            if let Some(w) = act.split_whitespace().next() {
+                out.count(&format!("act_{}", w));
+            }
+        }
+        out.add("declared", a.matches("declared(").count() as u64);
+        out.add("discharge_accepted", a.matches("accepted").count() as u64);
+        out.add("discharge_rejected", a.matches("rejected(").count() as u64);
+        out.add("post_held", a.matches("prov(").count() as u64);
+        out.add("session_ended_unknown_id", a.matches("end(UnknownId)").count() as u64);
+        out.add("delivered_to_app", a.matches(":m").count() as u64 + a.matches(",m").count() as u64);
+        out.add("commit_delivering", a.matches("accepted l").count() as u64);
+        out.add("skipped_actions", a.matches("skip").count() as u64);
+        if a.contains("declared(") && (a.contains("accepted l") || a.contains("rejected(") || a.contains("end(UnknownId)")) {
+            out.nontrivial(&line);
+        }
+        // the direct oracle does not know the second control link
+        if !s.contains('2') || !s.split(';').any(|x| x.trim().split_whitespace().next().map(|w| w.ends_with('2')).unwrap_or(false)) {
+            for v in oracle_l(&full, &t) {
+                let class = v.split(':').next().unwrap_or("?").to_string();
+                out.violation(&class, &format!("{} | `{}` -> {}", v, full, t), &line);
+            }
+        }
+        if t == "HARNESS-PANIC" {
+            out.violation("c18-panic", &format!("c18-panic: the case panicked: {}", line), &line);
+        }
+        out.case(&line, &a);
     }
     out.finish(dir);
 }
